@@ -164,6 +164,14 @@ func (eng *Engine) buildIntercepts() {
 		}
 		return ex.tt.BV(64, uint64(int64(v)))
 	}
+	ic[envPkg+".ParamOr"] = func(ex *Exec, caller *frame, fn *ssa.Function, args []Value) Value {
+		name := strArg(ex, args[0])
+		v, ok := ex.cfg.Params[name]
+		if !ok {
+			return args[1]
+		}
+		return ex.tt.BV(64, uint64(int64(v)))
+	}
 	ic[envPkg+".Catch"] = func(ex *Exec, caller *frame, fn *ssa.Function, args []Value) (res Value) {
 		res = ex.tt.BV(64, 0)
 		func() {
